@@ -84,6 +84,28 @@ func genStandard(env *Env, prop string, opaque bool, extra func(ex *symex.Exec, 
 							}
 							items[i].exs = append(items[i].exs, ex2)
 						}
+					} else if fc.Flags["rulesmerge"] {
+						if ng := ex.RulesMerge(fn, fc); ng != nil {
+							items[i].ngs = append(items[i].ngs, *ng)
+						}
+					} else if fc.Flags["mergelaws"] {
+						tn := strings.TrimSuffix(strings.TrimPrefix(fc.Name, "(*"), ").Merge")
+						var den *symex.Denot
+						for _, tl := range env.CS.Tables {
+							if tl.Kind == "denot" && tl.Head == tn {
+								d, err := symex.ParseDenot(tl)
+								if err != nil {
+									items[i].ngs = append(items[i].ngs, symex.NotGenerated{Func: fc.Name, Why: err.Error()})
+								} else {
+									den = &d
+								}
+							}
+						}
+						if den == nil {
+							items[i].ngs = append(items[i].ngs, symex.NotGenerated{Func: fc.Name, Why: "no denot line for " + tn})
+						} else if ng := ex.MergeLaws(fn, fc, *den); ng != nil {
+							items[i].ngs = append(items[i].ngs, *ng)
+						}
 					} else {
 						if ng := ex.VerifyFunc(fn, fc, c); ng != nil {
 							items[i].ngs = append(items[i].ngs, *ng)
@@ -139,6 +161,24 @@ func init() {
 			g.Assumptions = []string{
 				"the order laws of Rule.Compare are proved per dynamic type under the pre-condition that both rules have that type; the comparator of Rules.Sort is proved against the interface-level contract (laws hold for two rules of the same dynamic type)",
 				"tables stringWeights, fileWeights, fileAlphabet, ruleWeights are the values built by the real init code of the working tree (dumped through go test -overlay on every run)",
+			}
+			return g
+		},
+	})
+}
+
+func init() {
+	Register(&Property{
+		ID:       "C10",
+		Packages: []string{"pkg/aa"},
+		Generate: func(env *Env) *Gen {
+			g := genStandard(env, "C10", true, nil)
+			g.Unverified = []string{
+				"the property's second oracle (compiling both lists with the reference parser)",
+			}
+			g.Assumptions = []string{
+				"the denotation table (//@ denot lines) restates apparmor.d(5): which fields are qualifier, subject and permission sets and where an empty set means all",
+				"strings are compared by equality only in these obligations (opaque mode)",
 			}
 			return g
 		},
